@@ -49,21 +49,23 @@ TOp ==
                 rs == [k \in 1..Len(E.outs) |-> [o |-> E.outs[k], m |-> E.m, h |-> E.h, s |-> E.s, t |-> E.t]]
                 RECURSIVE Cat(_)
                 Cat(k) == IF k > Len(rs) THEN <<>> ELSE Render(rs[k]) \o Cat(k + 1)
-                want == b0 \o Cat(1)
+                want == (IF DirtyTail(TRUE, b0) THEN b0 \o <<NL>> ELSE b0) \o Cat(1)
                 memOK == \A k \in DOMAIN rs : rs[k].o \in DOMAIN tab /\ tab[rs[k].o] = [m |-> E.m, h |-> E.h, s |-> E.s, t |-> E.t]
-            IN /\ gh' = GhostAppend(g0, rs, 1, Len(b0), DirtyTail(TRUE, b0))
+            \* (record offsets from the bytes actually on disk)
+            IN /\ gh' = GhostAppend(g0, rs, 1, Len(E.bytes) - Len(Cat(1)), DirtyTail(TRUE, b0))
                /\ viol' = viol \cup (IF ~E.ok \/ ~memOK THEN {V("C08", "RecordCommand failed or the in-memory entry is not the recorded one")} ELSE {})
                                \cup (IF E.bytes # want THEN {V("IMPL", "bytes on disk after RecordCommand differ from the writer model")} ELSE {})
                /\ stats' = [stats EXCEPT !.ops = @ + 1]
        [] E.op = "reopen" ->
-            /\ gh' = IF Loaded(exists, file).removed THEN AllDead(gh) ELSE gh
+            \* (closing a log whose last line is torn ends that line: from then on the file holds a damaged line)
+            /\ gh' = IF Loaded(exists, file).removed THEN AllDead(gh) ELSE [gh EXCEPT !.merged = @ \/ DirtyTail(exists, file)]
             /\ viol' = viol \cup LoadChecks(tab, exists, file, gh)
                             \cup (IF E.status = 0 THEN {V("C08", "loading the log reported an error")} ELSE {})
             /\ stats' = [stats EXCEPT !.ops = @ + 1, !.loads = @ + 1]
        [] E.op = "tear" ->
             LET b == SubSeq(file, 1, E.len)
                 g1 == GhostTear(gh, E.len)
-            IN /\ gh' = IF Loaded(exists, b).removed THEN AllDead(g1) ELSE g1
+            IN /\ gh' = IF Loaded(exists, b).removed THEN AllDead(g1) ELSE [g1 EXCEPT !.merged = @ \/ DirtyTail(exists, b)]     \* (the next open for writing ends the torn line)
                /\ viol' = viol \cup LoadChecks(tab, exists, b, g1)
                                \cup (IF E.status = 0 THEN {V("C08", "loading a torn log reported an error")} ELSE {})
                /\ stats' = [stats EXCEPT !.ops = @ + 1, !.loads = @ + 1, !.tears = @ + 1]
